@@ -629,8 +629,8 @@ class Interp:
             return self.pattern_call(recv, f.__name__, args, kwargs)
         if isinstance(recv, SymDict):
             return f(*args, **kwargs)
-        if type(recv) is dict or isinstance(recv, (set, frozenset)):
-            return self.hashed_call(recv, f.__name__, args, kwargs)
+        if isinstance(recv, (dict, set, frozenset)) and not isinstance(recv, SymDict):
+            return self.dict_native(recv, f.__name__, args, kwargs, f)
         if recv is None or isinstance(recv, types.ModuleType):
             nm = getattr(f, "__name__", "")
             if f in (builtins.print, builtins.id, builtins.enumerate, builtins.zip, builtins.reversed, builtins.next, builtins.getattr, builtins.setattr, builtins.hasattr, builtins.callable, builtins.map, builtins.filter):
@@ -644,8 +644,27 @@ class Interp:
             if owner in (list, tuple, object):
                 return f(*args, **kwargs)
             if owner in (dict, set, frozenset) and args:
-                return self.hashed_call(args[0], f.__name__, args[1:], kwargs)
+                return self.dict_native(args[0], f.__name__, args[1:], kwargs, lambda *a, **k: f(args[0], *a, **k))
         raise Unsupported(f"native method {getattr(f, '__qualname__', f)} of {type(recv).__name__} with a symbolic argument")
+
+    def dict_native(self, recv, nm, args, kwargs, native):
+        """a C-level dict/set method on a native container, some argument symbolic"""
+        if nm in ("__init__", "update", "fromkeys", "__or__", "__ior__", "union", "intersection", "difference"):
+            conv = []
+            for a in args:
+                if isinstance(a, SymDict):
+                    a = a.as_native()
+                elif isinstance(a, (list, tuple)) and any(sym_key(x[0]) for x in a if isinstance(x, (list, tuple)) and x):
+                    raise Unsupported(f"dict.{nm} with symbolic keys")
+                elif isinstance(recv, (set, frozenset)) and has_sym(a):
+                    raise Unsupported(f"set.{nm} with symbolic members")
+                conv.append(a)
+            return native(*conv, **kwargs)
+        if nm in ("values", "items", "keys", "__len__", "__iter__", "copy", "clear", "popitem"):
+            return native(*args, **kwargs)
+        if args and not sym_key(args[0]) and isinstance(recv, dict):
+            return native(*args, **kwargs)
+        return self.hashed_call(recv, nm, args, kwargs)
 
     def hashed_call(self, recv, name, args, kwargs):
         """dict/set operations with a symbolic key on a concrete container"""
